@@ -134,6 +134,39 @@ def t_py(t):
     raise ValueError(t)
 
 
+def t_of_py(T):
+    """typing object -> type AST (the inverse of t_py).  typing caches subscripted generics by *equal* arguments
+    and Union equality ignores the order of the arms, so `Set[Union[File, Path]]` may come back as the object first
+    built for `Set[Union[Path, File]]`: the arm order the implementation sees is the one of the object, not the
+    one that was asked for.  Every case is therefore canonicalised through canon() before it is used."""
+    from pydra.utils.typing import MultiInputObj
+    for name, c in _classes().items():
+        if T is c:
+            return ("base", name)
+    o, a = ty.get_origin(T), ty.get_args(T)
+    if o is list:
+        return ("list", t_of_py(a[0]))
+    if o is tuple:
+        if len(a) == 2 and a[1] is Ellipsis:
+            return ("tuplevar", t_of_py(a[0]))
+        return ("tuple", tuple(t_of_py(x) for x in a))
+    if o is dict:
+        return ("dict", t_of_py(a[0]), t_of_py(a[1]))
+    if o is set:
+        return ("set", False, t_of_py(a[0]))
+    if o is frozenset:
+        return ("set", True, t_of_py(a[0]))
+    if o is ty.Union:
+        return ("union", tuple(t_of_py(x) for x in a))
+    if o is MultiInputObj:
+        return ("multi", t_of_py(a[0]))
+    raise ValueError("type outside the grammar: %r" % (T,))
+
+
+def canon(t):
+    return t_of_py(t_py(t))
+
+
 def t_coq(t):
     k = t[0]
     if k == "base":
@@ -558,6 +591,7 @@ def run(ctx):
         cases += SEEDS
         while len(cases) < n:
             cases.append(gen_case(rng))
+        cases = [(canon(t), v) for t, v in cases]
         terms, meta, early = run_single(ctx, world, cases)
         extra = world.coq_fs() + EXTRA
         checks = {"tie_call": "tie_call", "tie_sac": "tie_sac", "tie_field": "tie_field", "tie_again": "tie_again",
@@ -659,7 +693,7 @@ def run_history(ctx, world):
     tries = 0
     while len(terms) < n and tries < n * 20:
         tries += 1
-        t = gen_type(rng, rng.choice([0, 1, 2, 2]))
+        t = canon(gen_type(rng, rng.choice([0, 1, 2, 2])))
         v0 = gen_value(rng, t)
         K = task_class(t)
         x0 = v_py(v0, world)
@@ -723,7 +757,7 @@ def replay(ctx, payload):
     c = payload["case"]
     world = World()
     try:
-        t = t_norm(c["type"])
+        t = canon(t_norm(c["type"]))
         T = t_py(t)
         print("type :", t_str(t))
         if "values" in c:
